@@ -626,8 +626,28 @@ def r19_9(ctx):
             if need_sort:
                 srt = [c for c in cs if isinstance(c[2], str) and c[2].rsplit('::', 1)[-1] in ('sort', 'sort_unstable', 'sort_by', 'sort_unstable_by', 'sort_by_key')]
                 ins = [c for c in cs if isinstance(c[2], str) and c[2].endswith('Builder::<W>::insert')]
-                ctx.check(R, bool(srt) and (not ins or srt[0][0] < ins[0][0]), 'sorted:' + name, 'the rows of a batch are inserted without having been sorted first: the build fails with OutOfOrder (or, for input that happens to be sorted per batch, depends on the batch size)', fn=g)
-            break
+                okp = bool(srt) and (not ins or srt[0][0] < ins[0][0])
+                if not okp:
+                    # a path that skips the sort: acceptable only behind a STRICT "already in order" test (a non-strict one lets
+                    # repeated keys through unmerged)
+                    tests = [c for c in path_calls(p, expand=False) if isinstance(c[2], str) and c[2].rsplit('::', 1)[-1] in ('all', 'is_sorted', 'is_sorted_by', 'is_sorted_by_key', 'any')]
+                    ops = set()
+                    for c in tests:
+                        for x in walk(('tuple', tuple(c[3]))):
+                            if x[0] == 'closure' and x[1] in b.fns:
+                                for q in explore(b.fns[x[1]], max_visits=1):
+                                    if q.end == 'return':
+                                        for y in walk(q.ret()):
+                                            if y[0] == 'call' and isinstance(y[1], str) and y[1].rsplit('::', 1)[-1] in ('lt', 'le', 'gt', 'ge'):
+                                                ops.add(y[1].rsplit('::', 1)[-1])
+                                            if y[0] == 'bin' and y[1] in ('Lt', 'Le', 'Gt', 'Ge'):
+                                                ops.add(y[1].lower())
+                    if ops and ops <= {'lt', 'gt'}:
+                        okp = True
+                    elif ops:
+                        ctx.violation(R, 'sorted:' + name, 'a batch skips sorting AND merging when its keys are in non-decreasing order (%s): a batch that repeats a key hands the duplicate to the builder (or resolves it differently from other batch sizes)' % sorted(ops), fn=g)
+                        continue
+                ctx.check(R, okp, 'sorted:' + name, 'the rows of a batch are inserted without having been sorted first: the build fails with OutOfOrder (or, for input that happens to be sorted per batch, depends on the batch size)', fn=g)
     # (d) what is collected is sent on
     for f in b.fn_list:
         if f.kind == 'Closure' and f.path.startswith('merge::Sorters') and '::new::' in f.path and f.path.count('{closure') == 1:
@@ -655,6 +675,37 @@ def r19_9(ctx):
                         bad = True
             if n_full:
                 ctx.check(R, not bad, 'batch-sent', 'a full batch is replaced by a fresh one without having been sent: its rows are lost', fn=f)
+    # a field handed to a local function goes to the parameter of the same name if there is one (`batcher(.., self.fd_limit, self.threads)`
+    # against `fn batcher(it, threads, batch_size)` runs the union rounds with the thread count as batch size)
+    for g in b.fn_list:
+        if not g.path.startswith(('merge::', '<merge::')) or g.from_expansion:
+            continue
+        for bid, t in g.calls():
+            cal = g.callee(t)
+            h = b.fns.get(cal) if isinstance(cal, str) else None
+            if h is None or not cal.startswith('merge::'):
+                continue
+            pnames = [h.local_name(i) for i in range(1, h.arg_count + 1)]
+            for ai, a in enumerate(t['args']):
+                l = arg_loc(g, t, ai)
+                fld = None
+                if l is not None and len(l) == 2 and l[0] == 1 and isinstance(l[1], str):
+                    fld = l[1]
+                else:
+                    pl = a.get('copy') or a.get('move')
+                    if pl is not None and not pl['proj']:
+                        # a temporary holding `self.field` (possibly cast)
+                        for dd in g.defs():
+                            if dd.target == (pl['local'],) and dd.kind == 'assign':
+                                st_ = g.blocks[dd.bid]['stmts'][dd.idx]
+                                src = st_['rv'].get('use') or st_['rv'].get('a')
+                                sp = (src or {}).get('copy') or (src or {}).get('move') if isinstance(src, dict) else None
+                                if sp is not None:
+                                    ll = g.loc(sp)
+                                    if len(ll) == 2 and ll[0] == 1 and isinstance(ll[1], str):
+                                        fld = ll[1]
+                if fld is not None and fld in pnames and ai < len(pnames) and pnames[ai] != fld:
+                    ctx.violation(R, 'swapped-args:%s->%s' % (g.path, cal), '`self.%s` is passed to %s as its parameter `%s`, although %s has a parameter named `%s`: two arguments of the same type are swapped' % (fld, cal.rsplit('::', 1)[-1], pnames[ai], cal.rsplit('::', 1)[-1], fld), fn=g, at=t.get('span'))
     sc = b.fn('merge::Sorters::<B>::create_fst')
     if sc is not None:
         from rules import cli
